@@ -12,6 +12,7 @@ for mid in sys.argv[3:]:
     prop = meta["property"]
     patch = os.path.join(d, "patch.diff")
     env = dict(os.environ)
+    env["VERIF_EVAL_RUN"] = "1"  # the record of a run on a deliberately changed tree must not replace the evidence file
     if mode == "repo":
         if subprocess.run(["git", "-C", "/repo", "status", "--porcelain", "--untracked-files=no"], capture_output=True).stdout.strip():
             sys.exit("refusing: /repo has uncommitted changes")
